@@ -80,8 +80,12 @@ def shard_e1(shard):
     drv = get_driver('asan')
     drv.define_schema(sid, sch.spec())
     st = ShardStats('E1 N=%d' % N)
+    cw = N >= 1000          # comment words in the alphabet: annotations are allocated, replaced and released too
+    N = N % 1000
     alpha = reduced_alphabet(sch) if N >= 100 else S.alphabet_for(sch)
     N = N % 100
+    if cw and flags & CFGF['COMMENTS']:
+        alpha = alpha + ['/*c*/', '#d\n']
     buf = []
 
     def flush():
@@ -204,9 +208,10 @@ def main():
             alpha = S.alphabet_for(sch)
             for flags, path in ((0, False), (CM, True)):
                 inner, frontier = trace.viable_prefixes(sch, flags, alpha, 2)
-                shards.append((sid, flags, path, 0, inner, dl))
+                NN = N + (1000 if N <= 5 else 0)
+                shards.append((sid, flags, path, NN - N, inner, dl))
                 for ch in engine.chunks(frontier, 4):
-                    shards.append((sid, flags, path, N, ch, dl))
+                    shards.append((sid, flags, path, NN, ch, dl))
         engine.phase(ck, 'E1 N=%d (every viable prefix = a cut, every dead token = a corruption)' % N, shard_e1, shards, schemas=len(USE))
     # reduced alphabet, deeper: repeated titles (instances replaced in place), re-opened sections, calls - with a search path set
     for N in ([8, 10] if quick else [10, 12]):
@@ -215,9 +220,10 @@ def main():
             sch = FAM[sid]
             alpha = reduced_alphabet(sch)
             inner, frontier = trace.viable_prefixes(sch, 0, alpha, 3)
-            shards.append((sid, CM, True, 100, inner, dl))
+            cwb = 1000 if N <= 8 else 0
+            shards.append((sid, CM, True, 100 + cwb, inner, dl))
             for ch in engine.chunks(frontier, 2):
-                shards.append((sid, CM, True, 100 + N, ch, dl))
+                shards.append((sid, CM, True, 100 + N + cwb, ch, dl))
         engine.phase(ck, 'E1 reduced alphabet N=%d, search path and annotations on' % N, shard_e1, shards, schemas=8)
     sch = FAM['I1']
     alpha = [w for w in S.alphabet_for(sch) if w not in ('include', '(', ')')]
